@@ -2,6 +2,7 @@ package main
 
 import (
 	"fmt"
+	"regexp"
 	"go/types"
 	"math/big"
 	"sort"
@@ -87,8 +88,14 @@ func sanitize(s string) string {
 	return sb.String()
 }
 
+var reByte = regexp.MustCompile(`\bbyte\b`)
+var reRune = regexp.MustCompile(`\brune\b`)
+
 func (tc *typeCtx) typeName(t types.Type) string {
-	return sanitize(types.TypeString(t, tc.qual))
+	s := types.TypeString(t, tc.qual)
+	s = reByte.ReplaceAllString(s, "uint8")
+	s = reRune.ReplaceAllString(s, "int32")
+	return sanitize(s)
 }
 
 func isErrorType(t types.Type) bool {
